@@ -337,6 +337,7 @@ type Contract struct {
 	Defines     []Clause
 	GhostSets   [][2]Clause
 	CallAsserts []CallAssert // callassert <callee> <expr>: obligation at every call of <callee> in this function
+	MapAsserts  []CallAssert // mapassert <map local> <expr>: obligation at every update m[key] = value of that map
 	Modifies    []Clause
 	ModAll      bool // modifies *
 	TrackClock  bool // opt trackclock: callees' inferred wall-clock effect is applied (C07)
@@ -381,7 +382,7 @@ func NewContractSet() *ContractSet {
 }
 
 var clauseKeywords = map[string]bool{
-	"requires": true, "ensures": true, "defines": true, "ghostset": true, "callassert": true, "modifies": true, "invariant": true, "decreases": true,
+	"requires": true, "ensures": true, "defines": true, "ghostset": true, "callassert": true, "mapassert": true, "modifies": true, "invariant": true, "decreases": true,
 	"panics": true, "mode": true, "trusted": true, "inline": true, "loop": true, "func": true,
 	"extern": true, "extfunc": true, "spec": true, "property": true, "pure": true, "lemma": true, "noeffect": true,
 	"opt": true, "interface": true,
@@ -601,6 +602,19 @@ func (cs *ContractSet) ParseFile(path string, pkgPath string) error {
 					return fmt.Errorf("%s:%d: %v", path, line, err)
 				}
 				cur.CallAsserts = append(cur.CallAsserts, CallAssert{Callee: parts[0], Cl: Clause{Text: strings.TrimSpace(parts[1]), E: e, Line: line}})
+			case "mapassert":
+				// mapassert <map local> <expr>: checked at every `m[key] = value` on the local map variable of that
+				// name in this function's own body, in the state BEFORE the update (so m[key] is the old entry);
+				// `key` and `value` are the operands.  Every such update also bumps ghost(mapupd, m) by one.
+				parts := strings.SplitN(text, " ", 2)
+				if len(parts) != 2 {
+					return fmt.Errorf("%s:%d: mapassert needs '<map> <expr>'", path, line)
+				}
+				e, err := parseSpecExpr(strings.TrimSpace(parts[1]))
+				if err != nil {
+					return fmt.Errorf("%s:%d: %v", path, line, err)
+				}
+				cur.MapAsserts = append(cur.MapAsserts, CallAssert{Callee: parts[0], Cl: Clause{Text: strings.TrimSpace(parts[1]), E: e, Line: line}})
 			case "ghostset":
 				// ghostset <ghost location> := <expr>: specification-only state written by this function
 				parts := strings.SplitN(text, ":=", 2)
